@@ -96,6 +96,9 @@ type c07Case struct {
 	Th   bool   `json:"th,omitempty"`
 }
 
+// c07KeyForms: every way to declare the key column (column constraint / table constraint, key first / not first)
+var c07KeyForms = []string{"a primary key, b", "a, b, primary key(a)", "b, a primary key", "b, a, primary key(a)", "a integer primary key not null, b", "a, b, primary key(A)"}
+
 func init() {
 	All["C07"] = &Check{Level: "exploration", Run: c07Run}
 	engine.RegisterWorker("c07", c07Worker)
@@ -124,8 +127,41 @@ func c07Run(r *engine.Run) int {
 	}
 	for _, epn := range []int{2, 3, 4, 4096} {
 		cases = append(cases, engine.J(c07Case{Kind: "orderall", EPN: epn, Th: th}))
-		cases = append(cases, engine.J(c07Case{Kind: "nullkey", EPN: epn}))
+		for form := range c07KeyForms {
+			cases = append(cases, engine.J(c07Case{Kind: "nullkey", EPN: epn, I: form}))
+		}
 		cases = append(cases, engine.J(c07Case{Kind: "emptytext", EPN: epn}))
+	}
+	// equal keys are one key also when the row came into view through another writer: all sequences of inserts and
+	// deletes of two keys by two writers and their refreshes (the event engine of C11), oracle = the outcome of
+	// every statement agrees with the rows the connection itself shows
+	{
+		var alpha []int
+		for i, o := range vOps {
+			switch o {
+			case "w1:insert 1", "w1:insert 2", "w1:delete 1", "w2:insert 1", "w2:insert 2", "w2:delete 1", "w1:refresh", "w2:refresh", "w1:update 1":
+				alpha = append(alpha, i)
+			}
+		}
+		var vc []json.RawMessage
+		d := 4
+		if th {
+			d = 5
+		}
+		for _, epn := range []int{2, 4096} {
+			for _, a := range alpha {
+				for _, b := range alpha {
+					vc = append(vc, engine.J(vCase{Mode: "c07", EPN: epn, First: []int{a, b}, Depth: d, Alpha: alpha}))
+				}
+			}
+		}
+		r.Bounds["two_writer_outcome_sequences"] = map[string]interface{}{"depth": d, "events": len(alpha)}
+		engine.Map("versions", vc, func(i int, c json.RawMessage, res *engine.Result) {
+			r.Add("versions", c, res)
+			if res.Data != nil {
+				r.Sample(json.RawMessage(res.Data))
+			}
+		})
 	}
 	n := 0
 	engine.Map("c07", cases, func(i int, c json.RawMessage, res *engine.Result) {
@@ -303,26 +339,47 @@ func c07Worker(raw json.RawMessage) *engine.Result {
 		defer w.Close()
 		w.SetClock(engine.T(1000))
 		cl := w.NewClient("w1")
-		must(cl.Create(engine.TableOpts{Columns: "a primary key, b", EPN: c.EPN}))
+		form := c07KeyForms[c.I]
+		if err := cl.Create(engine.TableOpts{Columns: form, EPN: c.EPN}); err != nil {
+			if c.I == len(c07KeyForms)-1 {
+				res.Outcome = "nullkey" // the case-mismatched key reference may be refused (see C20)
+				res.Execs = 1
+				return res
+			}
+			res.Violate("key-form-rejected", "columns='%s' rejected: %v", form, err)
+			return res
+		}
+		nulls := []string{"insert into {T}(a,b) values(NULL, 1)", "insert into {T}(b) values(1)", "insert into {T}(a,b) values(?, 1)"}
+		try := func(stage string) {
+			before, _ := cl.Query("select a,b from {T} order by a")
+			for _, q := range nulls {
+				var err error
+				if strings.Contains(q, "?") {
+					err = cl.Exec(q, nil)
+				} else {
+					err = cl.Exec(q)
+				}
+				res.Trans++
+				if err == nil {
+					res.Violate("null-key-accepted", "%s succeeded on the %s table (columns='%s', epn=%d)", q, stage, form, c.EPN)
+				}
+			}
+			after, err := cl.Query("select a,b from {T} order by a")
+			if err != nil || !after.Equal(before) {
+				res.Violate("null-key-changed-table", "rows changed by rejected NULL-key inserts into the %s table: %v -> %v (%v) (columns='%s')", stage, before, after, err, form)
+			}
+		}
+		try("empty")
 		for i := 1; i <= 9; i++ {
-			must(cl.Exec("insert into {T} values(?,?)", i, i))
+			must(cl.Exec("insert into {T}(a,b) values(?,?)", i, i))
 		}
-		before, _ := cl.Query("select * from {T} order by a")
-		for _, q := range []string{"insert into {T} values(NULL, 1)", "insert into {T}(b) values(1)", "insert into {T} values(?, 1)"} {
-			var err error
-			if strings.Contains(q, "?") {
-				err = cl.Exec(q, nil)
-			} else {
-				err = cl.Exec(q)
-			}
-			res.Trans++
-			if err == nil {
-				res.Violate("null-key-accepted", "%s succeeded (epn=%d)", q, c.EPN)
-			}
+		try("populated")
+		// and an equal key is one key in every form
+		if err := cl.Exec("insert into {T}(a,b) values(5,'again')"); engine.ErrClass(err) != "pk" {
+			res.Violate("duplicate-key-accepted", "second INSERT of key 5: %v (columns='%s', epn=%d)", err, form, c.EPN)
 		}
-		after, err := cl.Query("select * from {T} order by a")
-		if err != nil || !after.Equal(before) {
-			res.Violate("null-key-changed-table", "rows changed by rejected NULL-key inserts: %v -> %v (%v)", before, after, err)
+		if rows, err := cl.Query("select count(*) from {T} where a=5"); err != nil || len(rows) != 1 || rows[0] != "i1" {
+			res.Violate("duplicate-key-accepted", "after the second INSERT of key 5 the table holds %v rows with that key (err %v) (columns='%s')", rows, err, form)
 		}
 		res.Execs, res.NontrivN = 1, 1
 		res.Outcome = "nullkey"
